@@ -14,7 +14,7 @@ def sh(cmd, cwd=wt, check=False):
     return r.returncode, (r.stdout + r.stderr)[-3000:]
 os.makedirs("/tmp/seedval", exist_ok=True)
 subprocess.run(f"git -C /repo worktree remove --force {wt}", shell=True, capture_output=True)
-subprocess.run(f"git -C /repo worktree add -q --detach {wt} 69370bd", shell=True, check=True)
+subprocess.run(f"git -C /repo worktree add -q --detach {wt} HEAD", shell=True, check=True)
 log = {}
 try:
     os.makedirs(f"{wt}/tun/client/ui/build", exist_ok=True)
@@ -48,7 +48,7 @@ if ok:
     os.makedirs(dst, exist_ok=True)
     shutil.copy(f"{src}/patch.diff", dst)
     shutil.copy(f"{src}/demo_test.go", dst)
-    meta["validated"] = {"by": "scripts/validate_seed.py in a scratch worktree of /repo@69370bd", "demo_passes_without_patch": True,
+    meta["validated"] = {"by": "scripts/validate_seed.py in a scratch worktree of /repo at HEAD (includes the fix: commits)", "demo_passes_without_patch": True,
                          "demo_fails_with_patch": True, "build_ok": True, "existing_tests_pass_with_patch": log["packages_tested"]}
     json.dump(meta, open(f"{dst}/meta.json", "w"), indent=1)
 print(json.dumps(log, indent=1)[:4000])
